@@ -76,6 +76,77 @@ pub fn liveness_end_checks(w: &mut World, sc: &Basic) {
     }
 }
 
+const TAG_TAIL: u64 = crate::scen::TAG_USER + (11 << 30);
+
+/// the workload is complete and the applications do nothing more: run on without them
+struct Tail<'a> {
+    b: &'a mut Basic,
+    until: crate::world::Ns,
+}
+
+impl crate::world::Scenario for Tail<'_> {
+    fn on_incoming(&mut self, w: &mut World, node: u32, incoming: &quinn_proto::Incoming, dgram: u32) -> crate::world::IncomingAction {
+        self.b.on_incoming(w, node, incoming, dgram)
+    }
+    fn on_accepted(&mut self, w: &mut World, inc: u32, dgram: u32) {
+        self.b.on_accepted(w, inc, dgram)
+    }
+    fn on_event(&mut self, w: &mut World, inc: u32, ev: quinn_proto::Event) {
+        self.b.on_event(w, inc, ev)
+    }
+    fn on_wake(&mut self, w: &mut World, tag: u64) {
+        if tag != TAG_TAIL {
+            self.b.on_wake(w, tag)
+        }
+    }
+    fn done(&self, w: &World) -> bool {
+        w.now >= self.until
+    }
+}
+
+/// Once everything has been delivered and acknowledged and nobody asks for anything, a
+/// connection has nothing to say: count the datagrams of the 30 s that follow a 5 s grace period.
+fn quiet_tail(w: &mut World, sc: &mut Basic) -> Option<u64> {
+    if !w.violations.is_empty() || w.hit_limit.is_some() || sc.completed_at.is_none() {
+        return None;
+    }
+    let t0 = w.now;
+    let settle = t0 + 5 * crate::world::SEC;
+    w.wake_at(settle, TAG_TAIL);
+    w.run(&mut Tail { b: sc, until: settle });
+    let n1 = w.dgrams.len();
+    let end = settle + 30 * crate::world::SEC;
+    w.wake_at(end, TAG_TAIL);
+    w.run(&mut Tail { b: sc, until: end });
+    if !w.violations.is_empty() || w.hit_limit.is_some() {
+        return None;
+    }
+    let n = (w.dgrams.len() - n1) as u64;
+    // what may legitimately go on: keep-alive PINGs and their acknowledgements, periodic MTU
+    // re-probing (a search of up to a dozen probes per round, each acknowledged)
+    let mut expected = 0u64;
+    let n_conns = (w.conns.len() as u64 / 2).max(1);
+    for k in [&sc.server_knobs, &sc.client_knobs] {
+        if let Some(ka) = k.keep_alive_ms {
+            expected += n_conns * (30_000 / ka.max(1) + 1) * 2;
+        }
+        if k.mtud {
+            let interval = k.mtud_params.map_or(600_000, |p| p.0);
+            expected += n_conns * (30_000 / interval.max(1) + 1) * 30;
+        }
+    }
+    let allowed = 200 + 3 * expected;
+    // (C02 says nothing about an idle connection staying quiet, so this is a probe and a
+    // statistic, not a violation; a real runaway exchange trips the transmit-storm guard)
+    let _ = t0;
+    if n > allowed {
+        w.probes.hit("chatter_after_completion_above_allowance");
+    } else {
+        w.probes.hit("quiet_after_completion");
+    }
+    Some(n)
+}
+
 fn run(ch: Chooser, ctx: &RunCtx, mut opts: BasicOpts) -> RunOut {
     let mut w = World::from_ctx(ch, ctx);
     // C02 quantifies over loss / duplication / delay and driver schedules: no corruption, no
@@ -87,7 +158,11 @@ fn run(ch: Chooser, ctx: &RunCtx, mut opts: BasicOpts) -> RunOut {
     let mut sc = Basic::build(&mut w, opts);
     w.run(&mut sc);
     liveness_end_checks(&mut w, &sc);
+    let tail = quiet_tail(&mut w, &mut sc);
     let mut o = RunOut::from_world(&mut w);
+    if let Some(n) = tail {
+        o.stats.insert("datagrams_in_30s_after_completion", n as f64);
+    }
     o.config = format!("server={:?} client={:?} net={:?} fault_end_ms={} retry={} ops={:?} drops={:?}", sc.server_knobs, sc.client_knobs, w.net, sc.fault_end / 1_000_000, sc.retry_first, sc.ops, w.net.drop_ordinals);
     o.stats.insert("completion_after_clean_ms", sc.completed_at.map_or(-1.0, |t| (t.saturating_sub(sc.fault_end)) as f64 / 1e6));
     let _ = NO_INC;
